@@ -115,6 +115,85 @@ SEEDS_PLAIN = ("opened", "hello_sent", "connected", "req_pending", "disc_pending
 SEEDS_NOISE = ("hello_sent", "connected", "disc_pending")
 
 
+def ownership_sweep(res: Result, only: str | None = None) -> int:
+    """Client level, causes that need the keepalive machinery or nothing but the passage of time, with and without the application
+    keeping a reference to the APIClient object (a session is kept alive by its socket, not by the application's variable):
+    the stop callback is invoked exactly once, with the right argument."""
+    import gc
+
+    from ..world import ConnWorld, mk
+
+    K = 10.0
+    n = 0
+    causes = ("eof", "device-disconnect-request", "silent-from-the-start", "first-ping-answered-then-silent",
+              "two-pings-answered-then-silent", "state-after-ping-then-silent")
+    for noise in (False, True):
+        for cause in causes:
+            for drop in (False, True):
+                key = f"ownership:{'noise' if noise else 'plain'}:{cause}:{'client-dropped' if drop else 'client-kept'}"
+                if only is not None and key != only:
+                    continue
+                w = ConnWorld(client=True, noise=noise, keepalive=K, login=True)
+                stops: list[bool] = []
+                try:
+                    async def on_stop(expected: bool, _s: list[bool] = stops) -> None:
+                        _s.append(bool(expected))
+
+                    cl = w.client
+                    w.spawn("connect", lambda: cl.connect(on_stop=on_stop, login=True))
+                    w.drain()
+                    w.io_connect(w.sock, 0)
+                    w.drain()
+                    if noise:
+                        w.io_chunk(w.sock, w.noise_handshake_bytes())
+                        w.drain()
+                    w.io_chunk(w.sock, w.dframe(w.hello_resp()))
+                    w.drain()
+                    w.io_chunk(w.sock, w.dframe(w.connect_resp()))
+                    w.drain()
+                    if w.outcome("connect") != "ok":
+                        raise HarnessError(f"ownership sweep: connect failed {w.results}")
+                    t0 = w.loop.time()
+                    sock = w.sock
+                    if drop:
+                        # the application forgets the client; only the callback it passed in remains in its hands
+                        w.tasks.clear()
+                        w.results.clear()
+                        w.client = None
+                        del cl
+                        gc.collect()
+                    want = [False]
+                    if cause == "eof":
+                        w.io_eof(sock)
+                        w.drain()
+                    elif cause == "device-disconnect-request":
+                        w.io_chunk(sock, w.dframe(mk("DisconnectRequest")))
+                        w.drain()
+                        want = [True]
+                    else:
+                        answers = {"silent-from-the-start": 0, "first-ping-answered-then-silent": 1, "two-pings-answered-then-silent": 2,
+                                   "state-after-ping-then-silent": 1}[cause]
+                        t = t0
+                        for _ in range(answers):
+                            t += K
+                            w.run_timers(t)  # a silent interval ends: the client pings
+                            msg = mk("SensorStateResponse", key=1, state=1.0) if cause.startswith("state") else mk("PingResponse")
+                            w.io_chunk(sock, w.dframe(msg))
+                            w.drain()
+                            t += K
+                            w.run_timers(t)  # an interval with traffic: no ping at its end
+                        w.run_timers(t + 8 * K)  # silence: ping at +K, declared dead 4.5 K later
+                    w.run_timers(w.loop.time() + 1.0)
+                    n += 1
+                    if stops != want:
+                        res.add(key, f"C07:client:{'missing' if not stops else 'wrong'}: close cause '{cause}' with the APIClient "
+                                f"{'no longer referenced by the application' if drop else 'still referenced'}: stop callback calls {stops}, expected {want}",
+                                {"harness": "c07-ownership", "key": key})
+                finally:
+                    w.close()
+    return n
+
+
 def run(tier: str, seed: int) -> Result:
     res = Result("C07", "model_checking")
     total = Stats()
@@ -140,6 +219,8 @@ def run(tier: str, seed: int) -> Result:
             res.add(key, clause, {"harness": "lifecycle", "noise": noise, "seed_state": sd, "choices": v["choices"],
                                   "violated": v["violated"], "observations": v["observations"]})
         total.merge(st)
+    own = ownership_sweep(res)
+    per_cfg.append({"level": "APIClient", "ownership_and_keepalive_causes": own})
     # client level: the callback given at connect time (per start_connection/connect call) - explored with the C19 client harness
     from . import c19
 
@@ -190,6 +271,11 @@ def run(tier: str, seed: int) -> Result:
 
 def replay(rp: dict[str, Any]) -> bool:
     d = rp["detail"]
+    if d.get("harness") == "c07-ownership":
+        r = Result("C07", "model_checking")
+        ownership_sweep(r, only=d["key"])
+        print(d["key"], "->", [v.clause for v in r.violations] or "holds")
+        return not r.violations
     if d.get("harness") == "c19-client":
         from . import c19
 
